@@ -44,12 +44,12 @@ theorem drop_of_findAt {pat s : Bytes} {e : Nat} (h : findAt pat s = some e) :
   simpa using h1
 
 /-- every piece of a split of a well-formed string by a well-formed non-empty pattern is well-formed -/
-theorem splitB_valid {pat : Bytes} (hpv : validUtf8 pat = true) (hp : pat ≠ []) :
-    ∀ (fuel : Nat) (rest : Bytes), validUtf8 rest = true → ∀ p ∈ splitB pat fuel rest, validUtf8 p = true
-  | 0, _, _ => by simp [splitB]
+theorem splitNE_valid {pat : Bytes} (hpv : validUtf8 pat = true) (hp : pat ≠ []) :
+    ∀ (fuel : Nat) (rest : Bytes), validUtf8 rest = true → ∀ p ∈ splitNE pat fuel rest, validUtf8 p = true
+  | 0, _, _ => by simp [splitNE]
   | fuel + 1, rest, hv => by
     intro p hpm
-    simp only [splitB] at hpm
+    simp only [splitNE] at hpm
     cases hf : findAt pat rest with
     | none => rw [hf] at hpm; simp at hpm; subst hpm; exact hv
     | some e =>
@@ -69,7 +69,7 @@ theorem splitB_valid {pat : Bytes} (hpv : validUtf8 pat = true) (hp : pat ≠ []
         · exact h2.1
         · have hv2 : validUtf8 ((c :: pr) ++ rest.drop (e + (c :: pr).length)) = true := by
             simpa using h2.2
-          exact splitB_valid hpv hp fuel _ (valid_of_append_left hv2 hpv) p hpm
+          exact splitNE_valid hpv hp fuel _ (valid_of_append_left hv2 hpv) p hpm
 
 /-- `replace` with a non-empty pattern keeps well-formedness -/
 theorem replaceNE_valid {pat to : Bytes} (hpv : validUtf8 pat = true) (hp : pat ≠ []) (htv : validUtf8 to = true) :
